@@ -100,10 +100,11 @@ ARMS = {
     ensures ({ let s = bytes(&arguments@[0]->Str_0); let o = bytes(&arguments@[1]->Str_0);
         // present: the position of the FIRST occurrence, in the unit every other position-taking method (substring, insert, delete, split) uses,
         // so that s.substring(i, i + o.len()) == o ; absent: nil
-        &&& r is Ok ==> r->Ok_0.0 is Some && r->Ok_0.0->Some_0 is Optional
-        &&& (r is Ok && r->Ok_0.0->Some_0->Optional_0 is Some) ==> ({ let v = *r->Ok_0.0->Some_0->Optional_0->Some_0;
-                v is Int && occurs_at(s, o, v->Int_0 as int) && forall|j: int| 0 <= j < v->Int_0 ==> !occurs_at(s, o, j) })
-        &&& (r is Ok && r->Ok_0.0->Some_0->Optional_0 is None) ==> forall|j: int| !occurs_at(s, o, j) })""",
+        // (the present position is the plain int, not a wrapper around it: D91)
+        &&& r is Ok ==> r->Ok_0.0 is Some && (r->Ok_0.0->Some_0 is Int || r->Ok_0.0->Some_0 == Primitive::Optional(None))
+        &&& (r is Ok && r->Ok_0.0->Some_0 is Int) ==> ({ let v = r->Ok_0.0->Some_0;
+                occurs_at(s, o, v->Int_0 as int) && forall|j: int| 0 <= j < v->Int_0 ==> !occurs_at(s, o, j) })
+        &&& (r is Ok && r->Ok_0.0->Some_0 is Optional) ==> forall|j: int| !occurs_at(s, o, j) })""",
  "StrReplace": """requires recv(arguments@), arguments@.len() >= 3, arguments@[1] is Str, arguments@[2] is Str
     ensures is_str(r, replaced(bytes(&arguments@[0]->Str_0), bytes(&arguments@[1]->Str_0), bytes(&arguments@[2]->Str_0)))""",
  "StrContains": """requires recv(arguments@), arguments@.len() >= 2, arguments@[1] is Str
